@@ -114,9 +114,13 @@ pub fn k_div_dword_pow2<const N: usize>() {
 // ------------------------------------------------------------------ UBig operators from shapes (structured contents)
 
 /// which: 0 `/`, 1 `%`, 2 div_rem, 3 div_euclid, 4 rem_euclid, 5 div_rem_euclid, 6 div_rem_assign, 7 `/=` + `%=`, 8 is_multiple_of
-pub fn div_u<const NA: usize, const NB: usize, const P: usize>(which: u8, form: u8, k: u32) {
+pub fn div_u<const NA: usize, const NB: usize, const P: usize>(which: u8, form: u8, k: u32, blit: Option<[Word; NB]>) {
     let a: [Word; NA] = smag::<NA>(k);
-    let b: [Word; NB] = smag::<NB>(k);
+    // divisor: a literal of the given class (the reciprocal is then a constant) or structured symbolic words
+    let b: [Word; NB] = match blit {
+        Some(b) => b,
+        None => smag::<NB>(k),
+    };
     let (x, y) = (ubig(&a), ubig(&b));
     let (q, r): (Option<UBig>, Option<UBig>) = match (which, form) {
         (0, 0) => (Some(x / y), None),
@@ -214,9 +218,19 @@ pub fn div_u_zero<const NA: usize>(which: u8) {
 // ------------------------------------------------------------------ IBig conventions from shapes
 
 /// truncating forms: which 0 `/`, 1 `%`, 2 div_rem, 3 div_rem_assign ; sign(r) = sign(a), sign(q) = sa*sb
-pub fn div_i_trunc<const NA: usize, const NB: usize, const P: usize>(sa: Sign, sb: Sign, which: u8, form: u8, k: u32) {
+pub fn div_i_trunc<const NA: usize, const NB: usize, const P: usize>(
+    sa: Sign,
+    sb: Sign,
+    which: u8,
+    form: u8,
+    k: u32,
+    blit: Option<[Word; NB]>,
+) {
     let a: [Word; NA] = smag::<NA>(k);
-    let b: [Word; NB] = smag::<NB>(k);
+    let b: [Word; NB] = match blit {
+        Some(b) => b,
+        None => smag::<NB>(k),
+    };
     let sa = if NA == 0 { POS } else { sa };
     let (x, y) = (ibig(sa, &a), ibig(sb, &b));
     let (q, r): (IBig, IBig) = match (which, form) {
